@@ -248,7 +248,7 @@ def entry_terms(r, method, hmax):
 def call(fn):
     """Run one library call with a cold rule cache.  ('ok', value) or ('raised-X', text)."""
     import numdifftools.finite_difference as fdm
-    fdm.FD_RULES.clear()
+    fw.fresh_library_state()
     try:
         with warnings.catch_warnings():
             warnings.simplefilter('ignore')
